@@ -15,6 +15,8 @@ oracle : harness/c02_play.c on the uninstrumented build: (a) generated modules w
          recognised format (~90), memory test + load of every prefix 0..768, every 5th up to 4096 and 200 lengths
          spread over the rest (thorough: every prefix up to 64 KiB + 4000 spread); (c) Unreal packages with boundary
          counts / lengths / offsets, unmodified, through the memory and callback entry points
+meters : harness/c02_play.c built with WRAP_METERS (allocator and hio read functions wrapped at link level): `meter` and
+         `fields` modes, see MANIFEST text
 search : harness/c01_fuzz.c in `res` mode on an uninstrumented -O1 build with a wrapped allocator: CPU time,
          peak live heap and the biggest single request per case, on mutated corpus files (length/count fields
          inflated, truncations, splices) and on generated decompression bombs (gzip, zip, xz, bzip2)
@@ -58,7 +60,10 @@ MANIFEST = dict(
          "bombs (gzip, xz, bzip2, compress code-stream bombs, MMCMP rewrite bomb), against limits proportional to the bytes supplied plus "
          "the fixed ceilings; in addition every truncation point of one small file per recognised format (~90 formats) is loaded, and "
          "generated restart-position / marker-order / row-delay modules plus one file per format are played through their end twice, "
-         "under an alarm and the CPU limit.",
+         "under an alarm and the CPU limit; heap and read-work meters (peak live heap, reads made with the stream already at its end, "
+         "hard stop at 48 Mi such reads) run on unmodified IFF-family files extended by thousands of repeated zero/4-byte chunks of every id "
+         "the file uses, on every synthetic module, and on a field sweep (one 32-bit field = 2^31-1 / 2^32-1 at every offset of small "
+         "files, the first/last KiB and behind every header pointer of larger ones).",
     note="Trusted: Lean kernel; the C08/C09/C03/C20 models the work theorems are stated over (their ties to the C are the correspondences of "
          "those checks: the step functions of XmpModel/WorkBound.lean are proved equal to them, no new trust); model XmpModel/IffWalk.lean "
          "(tied here: harness/c02_iff.c compiles iff.c with recording hio wrappers and compares return value, number of loop tests and every "
@@ -211,6 +216,73 @@ def run_trunc_group(args):
     return rc, out.decode("latin-1"), err[-600:], files
 
 
+METER_WRAPS = ["malloc", "calloc", "realloc", "free", "hio_read8s", "hio_read8", "hio_read16l", "hio_read16b", "hio_read24l",
+               "hio_read24b", "hio_read32l", "hio_read32b", "hio_read"]
+
+
+def build_meter():
+    return vlib.build_harness("c02_meter", ["c02_play.c"], variant="plain", defines=["WRAP_METERS"],
+                              extra=["-Wl,--wrap=" + w for w in METER_WRAPS])
+
+
+def run_meter_group(args):
+    exe, mode, files = args
+    rc, out, err = vlib.run_exe(exe, mode + files, timeout=3600)
+    return rc, out.decode("latin-1"), err[-600:], files
+
+
+def meter_verdicts(ck, kind, limit, results):
+    """oracle over `metered` / `fieldswept` lines and the meters' hard stops (HANG = alarm, WORK = reads after EOF over the cap)"""
+    n = 0
+    worst = {"cpu": (0.0, ""), "peak": (0, ""), "eofreads": (0, "")}
+    for rc, out, err, fl in results:
+        for m in re.finditer(r"^(?:metered|fieldswept) (.*?) ((?:\w+=\S+ ?)+)$", out, re.M):
+            f = m.group(1)
+            kv = dict(x.split("=") for x in m.group(2).split())
+            n += int(kv.get("variants", 1))
+            size = max(os.path.getsize(f), 1)
+            cpu = float(kv.get("cpu", kv.get("maxcpu", 0)))
+            peak = int(kv.get("peak", kv.get("maxpeak", 0)))
+            eofr = int(kv.get("eofreads", kv.get("maxeof", 0)))
+            for k, v in (("cpu", cpu), ("peak", peak), ("eofreads", eofr)):
+                if v > worst[k][0]:
+                    worst[k] = (v, os.path.basename(f))
+            ck.count("%s:%s" % (kind, os.path.basename(f)), nontrivial=True)
+            packed = is_packed(f)
+            peak_lim = (int(2.2 * limit) + (256 << 20)) if packed else ((48 << 20) + 64 * size)
+            what = None
+            if cpu > 10.0 + 2e-6 * size:
+                what, sig = "%.1f s CPU" % cpu, "cpu@"
+            elif peak > peak_lim:
+                what, sig = "peak heap %d bytes (limit %d)" % (peak, peak_lim), "heap@"
+            if what:
+                ck.violation(sig + os.path.basename(f), {"kind": "meter", "mode": kind, "file": f, "line": m.group(0)},
+                             "%s (%d bytes, %s): %s" % (os.path.basename(f), size,
+                                                        "unmodified" if kind != "fields" else "one 32-bit field set to 2^31-1 / 2^32-1", what))
+        stop = re.search(r"^(HANG|WORK) (.*?) (-?\d+)(?: eofreads)?$", out, re.M)
+        if stop or rc != 0:
+            bad = stop.group(2) if stop else fl[0]
+            sig = {"HANG": "hang@", "WORK": "eofreads@"}.get(stop.group(1) if stop else "", "crash@")
+            ck.violation(sig + os.path.basename(bad), {"kind": "meter", "mode": kind, "file": bad, "offset": int(stop.group(3)) if stop else -1,
+                                                       "stderr": err},
+                         "%s (%s%s): %s (rc=%s)" % (
+                             os.path.basename(bad), "unmodified" if kind != "fields" else "32-bit field at offset ",
+                             "" if kind != "fields" or not stop else stop.group(3),
+                             "test/load did not return within 12 s" if sig == "hang@" else
+                             "more than 48 Mi reads were made with the stream already at its end: the number of reads is driven by a "
+                             "declared count, not by the bytes present" if sig == "eofreads@" else "the harness died", rc))
+    return n, worst
+
+
+def corpus_types(exe, scratch):
+    files = sorted(f for f in vlib.corpus_files() if os.path.getsize(f) < 3000000)
+    rc, out, err = vlib.run_exe(exe, ["1", "0", "1", scratch, "types"] + files, timeout=900)
+    by = {}
+    for m in re.finditer(r"^type (.*)\t(.*)$", out.decode("latin-1"), re.M):
+        by.setdefault(m.group(2), []).append(m.group(1))
+    return by
+
+
 def corpus_by_format(exe, scratch):
     """one small corpus file of every format xmp_test_module recognises (the C01 harness's `types` mode)"""
     files = sorted(f for f in vlib.corpus_files() if os.path.getsize(f) < 3000000)
@@ -220,6 +292,9 @@ def corpus_by_format(exe, scratch):
         by.setdefault(m.group(2), []).append(m.group(1))
     # the smallest file of at least 1 KiB (regression files of a few bytes have no pattern / sample data to cut), else the largest
     def pick(v):
+        # genuine modules first: the fuzz-regression directory (data/f) mostly holds files their loaders refuse
+        good = [f for f in v if os.sep + "f" + os.sep not in f]
+        v = good or v
         big = [f for f in v if os.path.getsize(f) >= 1024]
         return min(big, key=lambda f: (os.path.getsize(f), f)) if big else max(v, key=lambda f: (os.path.getsize(f), f))
     return {k: pick(v) for k, v in by.items()}
@@ -372,13 +447,63 @@ def run(ck):
                              os.path.basename(bad), hang.group(2) if hang else "?", rc))
     ck.note("truncation_sweep", {"formats": swept, "prefixes_loaded": points, "slowest_prefix": worst_pref})
 
-    # ---- measured search ------------------------------------------------------------------------
-    files = [f for f in vlib.corpus_files() if os.path.getsize(f) <= (300000 if quick else 3000000)]
+    # ---- heap and read-work meters on unmodified inputs (harness/c02_play.c built with WRAP_METERS) ------------------------
+    # (a) IFF-family: a genuine corpus file per format + thousands of repeated zero / 4-byte chunks of every id the file uses,
+    #     at the tail and right behind the first chunk; (b) every synthetic module of this run; (c) field sweep: one 32-bit
+    #     field set to 2^31-1 / 2^32-1 (both byte orders) at every offset of small files, and for larger ones in the first and
+    #     last KiB and behind every header pointer.  Oracles: CPU, peak heap against the size of the input, and the number of
+    #     reads made with the stream already at its end (hard stop at 48 Mi: a declared count drives the reads, not the bytes).
+    mexe = build_meter()
+    types = corpus_types(exe, scratch)
+    rep_dir = os.path.join(scratch, "iffrep-%d" % ck.seed)
+    shutil.rmtree(rep_dir, ignore_errors=True)
+    os.makedirs(rep_dir, exist_ok=True)
+    meter_files = []
+    for typ, fl in sorted(types.items()):
+        cand = []
+        for f in fl:
+            if os.sep + "f" + os.sep in f or os.path.getsize(f) > 300000:
+                continue
+            with open(f, "rb") as fh:
+                if c02_gens.chunk_boundaries(fh.read())[0]:
+                    cand.append(f)
+        if not cand:
+            continue
+        f = min(cand, key=lambda x: (os.path.getsize(x), x))
+        data = open(f, "rb").read()
+        for tag, b in c02_gens.iff_repeat_variants(data, repeats=8192 if quick else 32768):
+            path = os.path.join(rep_dir, "%s-%s%s" % (re.sub(r"\W+", "_", typ)[:16], tag, os.path.splitext(f)[1][:6] or ".bin"))
+            with open(path, "wb") as fh:
+                fh.write(b)
+            meter_files.append(path)
+    ck.note("iff_repeated_chunk_files", len(meter_files))
     syn_dir = os.path.join(scratch, "syn-%d" % ck.seed)
     shutil.rmtree(syn_dir, ignore_errors=True)
     syn = synthmods.write_set(random.Random(ck.seed * 104729 + 3), syn_dir, 120 if quick else 1200)
-    # offset-linked / command-table formats and declared-length liars (MED synth tables with jumps, DBM, IT compressed)
     syn += synthmods.write_set_extra(random.Random(ck.seed * 7561 + 5), syn_dir, 90 if quick else 900, gens=c02_gens.GENS, prefix="syx")
+    meter_files += syn
+    mres = list(vlib.pmap(run_meter_group, [(mexe, ["meter"], meter_files[i::16]) for i in range(16) if meter_files[i::16]]))
+    n_m, worst_m = meter_verdicts(ck, "meter", limit, mres)
+    ck.note("metered_unmodified", {"files": n_m, "worst": worst_m})
+    per_ext = {}
+    for f in syn:
+        per_ext.setdefault(os.path.splitext(f)[1], []).append(f)
+    field_files = [f for ext, fl in sorted(per_ext.items()) for f in sorted(fl, key=os.path.getsize)[:2 if quick else 8]]
+    field_files += sorted(f for f in reps.values() if os.path.getsize(f) <= (16384 if quick else 262144) and not is_packed(f))
+    # one process per file: a memory error of the uninstrumented library on one variant (C01's subject, reported as a note
+    # with the file, not as a C02 violation) must not hide the other files
+    fres = list(vlib.pmap(run_meter_group, [(mexe, ["fields", "1024" if quick else "8192"], [f]) for f in field_files]))
+    crashes = [(os.path.basename(fl[0]), rc) for rc, out, err, fl in fres if rc not in (0, 14, 15) and not re.search(r"^(HANG|WORK) ", out, re.M)]
+    fres = [r for r in fres if r[0] in (0, 14, 15) or re.search(r"^(HANG|WORK) ", r[1], re.M)]
+    n_f, worst_f = meter_verdicts(ck, "fields", limit, fres)
+    ck.note("field_sweep", {"files": len(field_files), "variants": n_f, "worst": worst_f,
+                            "memory_errors_seen_on_the_plain_build(C01)": crashes})
+
+    # ---- measured search ------------------------------------------------------------------------
+    files = [f for f in vlib.corpus_files() if os.path.getsize(f) <= (300000 if quick else 3000000)]
+    # (syn / syx: the synthetic modules written above — offset-linked / command-table formats and declared-length liars:
+    #  MED synth tables with jumps, DBM, IT compressed)
+    syn = list(syn)
     syn += c02_gens.patched_corpus_meds(random.Random(ck.seed * 7561 + 9), sorted(vlib.corpus_files()), syn_dir, 6 if quick else 60)
     syn += c02_gens.chunk_liars_from_corpus(random.Random(ck.seed * 7561 + 13), sorted(vlib.corpus_files()), syn_dir, 24 if quick else 300)
     files = files + syn * max(1, len(files) // (2 * max(1, len(syn))))
@@ -457,6 +582,15 @@ def replay(ck, rp):
         return c02_iff.replay(ck, r)
     if r.get("kind") == "umx":
         return c02_iff.replay_umx(ck, r)
+    if r.get("kind") == "meter":
+        mexe = build_meter()
+        if r.get("mode") == "fields":
+            rc, out, err = vlib.run_exe(mexe, ["fields", "2048", r["file"]], timeout=600)
+        else:
+            rc, out, err = vlib.run_exe(mexe, ["meter", r["file"]], timeout=120)
+        print(out.decode("latin-1")[-800:])
+        print(err[-800:])
+        return 0 if rc == 0 else 1
     if r.get("kind") in ("play", "trunc"):
         pexe = vlib.build_harness("c02_play", ["c02_play.c"], variant="plain")
         if r["kind"] == "play":
